@@ -59,9 +59,11 @@ def spec_rk(selection, capable):
 # scenarios
 
 def store_configs(tier):
-    cfgs = [("ref", "full"), ("ref", "only_non"), ("ref", "forced"), ("memory", None), ("option", None)]
+    cfgs = [("ref", "full"), ("ref", "only_non"), ("ref", "forced"), ("memory", None), ("option", None),
+            # a store with its own capability behind the lock wrappers: the wrapper must report the inner store's capability
+            ("arc_mutex_ref", "only_non"), ("arc_rwlock_ref", "only_non"), ("arc_rwlock_ref", "full")]
     if tier != "quick":
-        cfgs += [(k, d) for k in ("arc_rwlock_ref", "arc_mutex_ref") for d in ("full", "only_non", "forced")]
+        cfgs += [(k, d) for k in ("arc_rwlock_ref", "arc_mutex_ref") for d in ("full", "only_non", "forced") if (k, d) not in cfgs]
         cfgs += [(k, None) for k in ("arc_mutex_memory", "arc_rwlock_memory", "mutex_memory", "rwlock_memory", "arc_mutex_option")]
     return cfgs
 
@@ -82,7 +84,7 @@ def client_product(run):
         for sname, sel in SELECTIONS:
             for cname, ext in CRED_PROPS:
                 ops = [reg_op(run.rng, selection=sel, ext=ext, user_id=USER_ID), auth_op(run.rng, allow=None)]
-                sc = client_scenario(store_kind=kind, disc=disc or "full", ops=ops)
+                sc = client_scenario(store_kind=kind, disc=disc or "full", ops=ops, config={"counter": len(scs) % 2 == 0})
                 sc["c11"] = {"plain": True, "phase": 1}
                 scs.append(sc); meta.append(("client", kind, disc, sname, cname, 1))
     return scs, meta
@@ -94,7 +96,7 @@ def ctap_product(run):
         for rk in (False, True):
             ops = [{"op": "get_info"}, {"op": "make_credential", "req": mc_req(run.rng, rk=rk, uv=True, user_id=USER_ID)},
                    {"op": "get_assertion", "req": ga_req(run.rng, allow=None, uv=True)}]
-            sc = scenario(store_kind=kind, disc=disc or "full", ops=ops)
+            sc = scenario(store_kind=kind, disc=disc or "full", ops=ops, config={"counter": True})
             sc["c11"] = {"plain": True, "phase": 1}
             scs.append(sc); meta.append(("ctap", kind, disc, rk, 1))
     return scs, meta
@@ -179,6 +181,12 @@ def check_assertion(op_allow, obs, before, fails, plain, expect_ok, client):
         return None
     used = finds[0]["r"]["ok"][0]
     cid = o["raw_id"] if client else o["cred_id"]
+    # an assertion may advance the counter of the credential it used; the user handle of every stored credential stays
+    after = {p["cred_id"]: p for p in obs.get("store_after", [])}
+    for p in before:
+        if p["cred_id"] in after and after[p["cred_id"]]["user_handle"] != p["user_handle"]:
+            fails.append("an assertion changed the stored user handle of credential %s from %s to %s"
+                         % (p["cred_id"], p["user_handle"], after[p["cred_id"]]["user_handle"]))
     if cid != used["cred_id"]:
         fails.append("assertion names credential %s, the lookup selected %s" % (cid, used["cred_id"]))
     if o["user_handle"] != used["user_handle"]:
@@ -212,6 +220,11 @@ def client_oracle(sc, out):
         infos = infos_of(log)
         if len(set(infos)) > 1:
             fails.append("the store's capability answer changed during one ceremony: %s" % infos)
+        # a store with a configured capability (the harness's reference store, bare or behind a lock wrapper) must be seen
+        # with exactly that capability by the ceremony
+        if "ref" in sc["store"]["kind"] and any(i != sc["store"]["disc"] for i in infos):
+            fails.append("the store was built with capability %s but the ceremony was answered %s (store kind %s)"
+                         % (sc["store"]["disc"], sorted(set(infos)), sc["store"]["kind"]))
         if op["op"] == "register":
             q = op["req"]
             if not infos:
@@ -294,6 +307,11 @@ def ctap_oracle(sc, out):
         infos = infos_of(log)
         if len(set(infos)) > 1:
             fails.append("the store's capability answer changed during one ceremony: %s" % infos)
+        # a store with a configured capability (the harness's reference store, bare or behind a lock wrapper) must be seen
+        # with exactly that capability by the ceremony
+        if "ref" in sc["store"]["kind"] and any(i != sc["store"]["disc"] for i in infos):
+            fails.append("the store was built with capability %s but the ceremony was answered %s (store kind %s)"
+                         % (sc["store"]["disc"], sorted(set(infos)), sc["store"]["kind"]))
         if kind == "get_info":
             if not infos or res["ok"]["rk"] != (infos[0] != "only_non"):
                 fails.append("getInfo reports rk = %s for store capability %s" % (res["ok"]["rk"], infos))
